@@ -5,60 +5,73 @@ What runs: the real `Entity.__init__`, `Entity._get_from_identity_map_`, `Attrib
 `Set.reverse_add/reverse_remove`, `SessionCache.update_simple_index/update_composite_index`, `Attribute.validate`,
 `Set.validate`, followed by the real `flush()/commit()` on a real in-memory SQLite database (sqlite3 engine, foreign keys on).
 
-Scenario family (NOT solver-quantified as programs; listed in SCENARIOS below, ~75 calls in 9 families: create, assign,
-set(), one-to-one reassignment, collection add / remove / assignment, delete and cascades of depth 2, mixed-session objects
-and validation errors).  Every scenario is one modification call on a fixed object graph (function `populate`).
+Scenario list (NOT solver-quantified as programs; SCENARIOS below: 96 calls in 9 families - create, assign, set(), one-to-one
+reassignment, collection add / remove / assignment, delete with cascades of depth 2, mixed-session objects and validation
+errors).  Every scenario is one modification call on a fixed object graph (function `populate`: 10 entity types with simple,
+composite and relation-composite keys, one-to-one required / optional / cascade, one-to-many optional / required without
+cascade / cascade of depth 2, many-to-many); the objects the call uses are fetched before the call (part of the history).
 
 Symbolic (decided by CrossHair/z3, each combination is one explored path):
-  * `s`      - which scenario of the family,
+  * `s`      - which scenario of the family (one harness per family, so that they run in parallel),
   * `k`      - the FAULT INDEX: delegating wrappers around the internal steps that the undo closures are supposed to cover
                (SessionCache.update_simple_index, update_composite_index, Attribute.update_reverse, Set.reverse_add,
                Set.reverse_remove, Entity._delete_, and the nested - undo_funcs is not None - calls of Attribute.__set__ and
                Set.__set__) count the calls made during the call under test and raise ConstraintError INSTEAD of the k-th call;
-               k = 0: nothing is injected, the call fails (or not) by itself.  k ranges over 0..KMAX[s]+1, where KMAX[s] is the
-               number of counted calls of the un-faulted scenario measured at start-up (+ margin); every path checks that it
-               never makes more counted calls than the bound, so every reachable step is a fault point of some path.
-  * `origin` - where the objects come from: 0 loaded from the database, 1 created in this session (status 'created'),
-               2 created and flushed in this session (status 'inserted'),
-  * `hist`   - what happened before the call: 0 nothing, 1 an unrelated attribute of most objects was assigned (status
-               'modified', already queued for saving), 2 the same and flush() (status 'updated'),
-  * `preload`- 0 the call meets lazily loaded objects/collections, 1 every row and collection was read before.
-  * `follow` - (thorough tier) a later modification made after the failed call (and in the reference run): an unrelated
-               create with a new unique value, a create with the value the failed call tried to take, re-doing an m2m link ...
+               k = 0: nothing is injected, the call fails (or not) by itself.  k ranges over 0..kmax(s), where kmax(s) is the
+               largest number of counted calls of the un-faulted scenario over 10 measured runs + MARGIN; every path checks that
+               it never makes more counted calls than the bound (R4), so every reachable step is the fault point of some path.
+  * `mode`   - the history of the session, an index into MODES = (origin, hist, preload):
+               origin  0 objects loaded from the database, 1 created in this session (status 'created'), 2 created and flushed
+                       in this session (status 'inserted'),
+               hist    0 nothing happened before, 1 an unrelated attribute of most objects was assigned (status 'modified',
+                       already queued for saving), 2 the same and flush() (status 'updated'),
+               preload 0 the call meets lazily loaded objects/collections, 1 every row and collection was read before.
+               Quick tier: 10 of the 18 combinations; thorough tier: all.
+  * `order`  - pony walks Python sets of entity instances, whose order follows the identity hash (memory addresses).  The
+               harness replaces Entity.__hash__ by a per-run counter (class Order) so that a path is reproducible; `order`
+               selects counting up or down, i.e. two of the walk orders the address hash can produce.
+  * `follow` - (thorough tier) a later modification made after the failed call and in the reference run: a create with the
+               unique value / primary key the failed call tried to take, an existing composite key, re-doing an m2m link ...
 
-The symbolic ints are turned into concrete ones by explicit branching (one solver decision per comparison; crosshair's
-realize() never lets the search exhaust) and the session itself runs under `NoTracing`: every explored path is ONE concrete
-run of the real code at a solver-chosen (scenario, fault point, history) - fault_enumeration level, not a proof about all
-programs.  (Fully traced, a single pony session costs ~0.5 s per path; with ~10^4 paths that does not confirm.)  The fault
-index is decided up front rather than at each counted call because pony iterates over Python sets of entity instances
-(address-ordered), so the number of calls before a natural failure can differ between two runs of the same path prefix,
-which CrossHair would report as non-determinism.
+The symbolic ints are turned into concrete ones by explicit branching (`_pick`, bisection: one solver decision per comparison;
+crosshair's realize() never lets the search exhaust) and the session itself runs concretely: every explored path is ONE
+concrete run of the real code at a solver-chosen (scenario, fault point, history, order) - fault_enumeration level, not a proof
+about all programs.  Fully traced, a single pony session costs ~0.5 s per path (x ~10^4 paths).  The fault index is decided
+up front rather than at each counted call (the engine/fakedb.traced_eq pattern) because the call count before a natural
+failure depended on the set walk order before the Order stub existed; the tree is the same (k == 1? k == 2? ...).
+The concrete run is done in a helper PROCESS (class Helper): CrossHair slows down the interpreter it lives in ~4.5x even
+with tracing suspended by NoTracing (37 ms against 8 ms per path, measured in the harness thread and in a second thread).
 
-Reference statement of the property (function `_run_path`), for every path on which the call under test raised:
-  R1 same-run snapshot: with preload=1 (nothing left to load) the deep snapshot of the session taken right after the
-     exception equals the one taken right before the call: for every object in the cache its status, write bits, position
-     in objects_to_save, every attribute value, every collection (items, pending added/removed, count, loaded flag);
-     cache.indexes (every simple/composite/primary key -> object), objects_to_save, modified_collections and
-     cache.modified.  With preload=0 the call may legitimately LOAD things, so the same-run comparison is "nothing that was
-     there before changed, and every new key-index entry points to an object that was not in the cache before".
-  R2 reference run: an identical session WITHOUT the call is run first; after the failed call (and the follow-up, if any)
-     the whole database is read into both sessions (auto-flush disabled) and the same deep snapshot must be equal.
+Reference statement of the property (functions `_execute`, `_run_path`), for every path on which the call under test raised:
+  R1 same-run snapshot: with everything loaded (preload=1, or origin=1 without history) the deep snapshot of the session taken
+     right after the exception equals the one taken right before the call: for every object in the cache its status, write
+     bits, position in objects_to_save, every attribute value, every collection (items, pending added/removed, count, loaded
+     flag); cache.indexes (every simple/composite/primary key -> object), objects_to_save, modified_collections.
+     With lazy objects the call may legitimately LOAD things, so the same-run comparison is "nothing that was there before
+     changed, every new object is a plain loaded one and every new key-index entry points to such a new object".
+  R2 reference run: an identical session WITHOUT the call is run first (cached per history); after the failed call (and the
+     follow-up, if any) the whole database is read into both sessions (auto-flush disabled) and the deep snapshots are equal.
   R3 a following commit() raises nothing in the test run unless it raises in the reference run too, and afterwards the
      content of every table equals the reference run's (the committed model without the call).
-  R4 no path makes more counted calls than KMAX[s]; the fault, when armed within range, fires.
+  R4 no path makes more counted calls than kmax(s); the fault, when within the calls made, fires.
+cache.modified is compared by the two `modified_flag_*` harnesses only (the other harnesses ignore it and these ignore
+everything else): left set, it only makes the next flush a no-op pass that clears the query-result cache; nothing is written.
 An object that is in the cache's object set but reachable through no index, no collection, no attribute and not queued for
 saving (the husk of a failed constructor call) is not observable and is ignored; `None` and an empty set are the same
-"nothing pending" for SetData.added/removed.
+"nothing pending" for SetData.added/removed.  Paths on which the call does not raise assert nothing.
 
-Paths on which the call does not raise assert nothing (the property is only about calls that raise).
+Defect classes (KEYS, `explains`, `classify_path`): a failing path gets the key of the first class that accounts for one of
+its differences.  checks/c13.py re-runs a harness with the classes already reported in TOLERATE; a path then passes only if
+EVERY difference is accounted for by a tolerated class, so anything else on the same path still fails (key None or the next
+class).  The classes whose undo chain is cut short (an exception inside an undo closure; set(), which registers no undo)
+account for anything the call left behind; the others only for their own symptom.
 """
 import os
 from engine.ch import ok
 from pony.orm import core
 
 FOLLOW = int(os.environ.get('C13_FOLLOW', '0'))       # thorough tier: number of follow-up operations (0 = none only)
-MARGIN = 2
-STRICT_MODIFIED = [False]       # the `modified_flag` harness sets it: cache.modified itself must be restored, too
+MARGIN = 1
 _S = {}
 LAST = {}
 
@@ -70,10 +83,11 @@ class Fault(object):
     n = 0
     hit = None
     log = []
+    nested_sets = []           # (object, collection attribute) of every nested Set.__set__ (diagnostics for classify_path)
 
     @classmethod
     def arm(cls, k):
-        cls.armed, cls.k, cls.n, cls.hit, cls.log = True, k, 0, None, []
+        cls.armed, cls.k, cls.n, cls.hit, cls.log, cls.nested_sets = True, k, 0, None, [], []
 
     @classmethod
     def disarm(cls):
@@ -94,7 +108,10 @@ def _wrap(cls, name, nested_only=False):
     if getattr(orig, '_c13_orig', None) is not None: return
     if nested_only:
         def wrapper(attr, obj, val, undo_funcs=None):
-            if Fault.armed and undo_funcs is not None: Fault.tick(cls.__name__ + '.' + name)
+            if Fault.armed and undo_funcs is not None:
+                Fault.tick(cls.__name__ + '.' + name)
+                if cls is core.Set and not (obj._status_ == 'created' and obj._save_pos_ is None):     # not the object a constructor is making
+                    Fault.nested_sets.append((repr(_oid(obj)), attr.entity.__name__, attr.name))
             return orig(attr, obj, val, undo_funcs)
     else:
         def wrapper(*args, **kwargs):
@@ -105,7 +122,33 @@ def _wrap(cls, name, nested_only=False):
     setattr(cls, name, wrapper)
 
 
+class Order(object):
+    """Deterministic iteration order for sets of entity instances.  pony's Entity uses the identity hash, so the order in which
+    `to_add`, `to_remove`, SetData and cascades are walked depends on memory addresses: the same path could take a different
+    number of steps in two runs (CrossHair would call that non-determinism, a counterexample might not replay).  The stub
+    numbers the instances in the order they are first hashed during a run (1, 2, 3 ...; `flip`: counting down from 2**20), which
+    fixes the walk order to one of the orders the address hash can produce; the symbolic flag `order` chooses between the two."""
+    counter = 0
+    ids = {}
+    keep = []
+    flip = False
+
+    @classmethod
+    def reset(cls, flip):
+        cls.counter, cls.ids, cls.keep, cls.flip = 0, {}, [], bool(flip)
+
+    @staticmethod
+    def entity_hash(obj):
+        h = Order.ids.get(id(obj))
+        if h is None:
+            Order.counter += 1
+            h = Order.ids[id(obj)] = Order.counter
+            Order.keep.append(obj)          # keeps id(obj) from being reused during the run
+        return (1 << 20) - h if Order.flip else h
+
+
 def install_fault_points():
+    core.Entity.__hash__ = Order.entity_hash
     _wrap(core.SessionCache, 'update_simple_index')
     _wrap(core.SessionCache, 'update_composite_index')
     _wrap(core.Attribute, 'update_reverse')
@@ -663,16 +706,26 @@ def family(name):
     return [(i, n, p) for i, (f, n, p) in enumerate(SCENARIOS) if f == name]
 
 
-# follow-up operations (thorough tier); each may succeed or fail, in both the reference and the test run alike
-def _follow(c, f):
+# follow-up operations (thorough tier); each may succeed or fail, in both the reference and the test run alike.  Their operands
+# are fetched BEFORE the call under test: a fetch after it would be a query (and an auto-flush) in the reference run only
+# whenever the failed call happened to load the object.
+def _follow_operands(c, f):
+    if f == 3: return c.Person(1), c.Group(3), c.Person(6), c.Group(2)
+    if f == 4: return (c.Person(1),)
+    if f in (5, 6): return (c.Person(3),)
+    if f == 7: return (c.Person(2),)
+    return ()
+
+
+def _follow(c, f, ops):
     db = c.db
     if f == 1: db.Person(id=70, name='new', a=70, b=70, code=33)           # the value several failed calls tried to take
     elif f == 2: db.Person(id=70, name='new', a=1, b=1)                    # an existing composite key: must fail in both runs
-    elif f == 3: c.Person(1).groups.add(c.Group(3)); c.Person(6).groups.add(c.Group(2))
-    elif f == 4: db.Task(id=70, owner=c.Person(1), slot=7)
-    elif f == 5: c.Person(3).delete()
-    elif f == 6: db.Passport(id=9, number=909, person=c.Person(3))         # the pk/number a failed create tried to take
-    elif f == 7: c.Person(2).set(code=34, name='again')
+    elif f == 3: ops[0].groups.add(ops[1]); ops[2].groups.add(ops[3])
+    elif f == 4: db.Task(id=70, owner=ops[0], slot=7)
+    elif f == 5: ops[0].delete()
+    elif f == 6: db.Passport(id=9, number=909, person=ops[0])              # the pk/number a failed create tried to take
+    elif f == 7: ops[0].set(code=34, name='again')
 
 
 N_FOLLOW = 8
@@ -680,6 +733,11 @@ N_FOLLOW = 8
 
 # ---------------------------------------------------------------------------------------------------- the session
 def setup():
+    """called by engine.ch in the harness process before the analysis (and by replays)"""
+    _setup()
+
+
+def _setup():
     if _S: return
     from pony.orm import Database
     core.time = lambda: 0.0
@@ -688,20 +746,24 @@ def setup():
     db.bind('sqlite', ':memory:')
     db.generate_mapping(create_tables=True)
     install_fault_points()
-    _S['db'] = db
-    _S['tables'] = None
-    _S['ref'] = {}
-    kmax = {}
-    for si in range(len(SCENARIOS)):
+    _S.update(db=db, tables=None, ref={}, kmax={})
+
+
+KMAX_RUNS = ((0, 0, 1), (1, 0, 0), (0, 1, 1), (2, 2, 1), (0, 0, 0))
+
+
+def kmax(si):
+    """Bound on the fault index of scenario si: the largest number of counted calls seen in un-faulted runs of the call (five
+    histories, twice each because pony walks address-ordered sets) + MARGIN.  R4 makes sure no path exceeds it."""
+    _setup()
+    m = _S['kmax'].get(si)
+    if m is None:
         m = 0
-        for origin in (0, 1, 2):
-            for hist in (0, 1, 2):
-                for preload in (0, 1):
-                    for rep in range(2):
-                        r = _execute(si, 0, origin, hist, preload, 0, with_call=True)
-                        m = max(m, r['calls'])
-        kmax[si] = m + MARGIN
-    _S['kmax'] = kmax
+        for origin, hist, preload in KMAX_RUNS:
+            for order in (0, 1):
+                m = max(m, _execute(si, 0, origin, hist, preload, 0, with_call=True, order=order)['calls'])
+        m = _S['kmax'][si] = m + MARGIN
+    return m
 
 
 def _con():
@@ -856,13 +918,14 @@ def load_everything(db, cache):
     return None
 
 
-def _execute(si, k, origin, hist, preload, follow, with_call):
+def _execute(si, k, origin, hist, preload, follow, with_call, order=0):
     """One concrete session.  with_call=False is the reference run (the same session without the call under test)."""
     from pony.orm import db_session, commit, flush, rollback
     db = _S['db']
     fam, name, prepare = SCENARIOS[si]
-    res = {'raised': None, 'calls': 0, 'hit': None, 'problems': [], 'commit_error': None, 'follow_error': None, 'log': []}
+    res = {'raised': None, 'calls': 0, 'hit': None, 'problems': [], 'commit_error': None, 'follow_error': None, 'log': [], 'nested_sets': []}
     reset_db()
+    Order.reset(order)
     with db_session:
         old = populate_foreign(db)
     if origin == 0:
@@ -882,6 +945,7 @@ def _execute(si, k, origin, hist, preload, follow, with_call):
                     if hist == 2: flush()
                 if preload: load_everything(db, cache)
                 c = Ctx(db, old)
+                ops = _follow_operands(c, follow)
                 call = prepare(c)
                 if with_call:
                     before = snapshot(cache)
@@ -892,15 +956,15 @@ def _execute(si, k, origin, hist, preload, follow, with_call):
                         res['raised'] = '%s: %s' % (type(e).__name__, str(e)[:120])
                     finally:
                         Fault.disarm()
-                    res['calls'], res['hit'], res['log'] = Fault.n, Fault.hit, list(Fault.log)
+                    res['calls'], res['hit'], res['log'], res['nested_sets'] = Fault.n, Fault.hit, list(Fault.log), list(Fault.nested_sets)
                     if res['raised'] is None:
                         rollback()
                         return res                                  # the property says nothing about calls that succeed
                     after = snapshot(cache)
-                    d = diff(before, after) if (preload or origin == 1) else subset_diff(before, after)
+                    d = diff(before, after) if (preload or (origin == 1 and not hist)) else subset_diff(before, after)
                     res['problems'].extend('R1 same-run snapshot: ' + x for x in d)
                 if follow:
-                    try: _follow(c, follow)
+                    try: _follow(c, follow, ops)
                     except Exception as e: res['follow_error'] = type(e).__name__
                 try:
                     load_everything(db, cache)
@@ -923,20 +987,20 @@ def _execute(si, k, origin, hist, preload, follow, with_call):
     return res
 
 
-def _run_path(si, k, origin, hist, preload, follow):
-    """-> (holds, reasons, details)"""
-    if si not in _S.get('kmax', {}): setup()
-    key = (si, origin, hist, preload, follow)
+def _run_path(si, k, origin, hist, preload, follow, order=0):
+    """-> (holds, reasons, result of the test run)"""
+    bound = kmax(si)
+    key = (si, origin, hist, preload, follow, order)
     ref = _S['ref'].get(key)
     if ref is None:
-        ref = _S['ref'][key] = _execute(si, 0, origin, hist, preload, follow, with_call=False)
-    res = _execute(si, k, origin, hist, preload, follow, with_call=True)
+        ref = _S['ref'][key] = _execute(si, 0, origin, hist, preload, follow, with_call=False, order=order)
+    res = _execute(si, k, origin, hist, preload, follow, with_call=True, order=order)
     why = list(res['problems'])
     if ref['problems']: why.append('reference run: %r' % ref['problems'])
-    if res['calls'] > _S['kmax'][si] - 1:
-        why.append('R4 %d counted calls, bound %d' % (res['calls'], _S['kmax'][si]))
+    if res['calls'] > bound:
+        why.append('R4 %d counted calls, bound %d' % (res['calls'], bound))
     if k and res['calls'] >= k and not res['hit']: why.append('R4 fault %d was not injected' % k)
-    if res['raised'] is not None and not res['problems'][:0]:
+    if res['raised'] is not None:
         if isinstance(res.get('state'), str) or isinstance(ref.get('state'), str):
             if res.get('state') != ref.get('state'): why.append('R2 %s (reference: %s)' % (res.get('state'), str(ref.get('state'))[:60]))
         else:
@@ -947,119 +1011,259 @@ def _run_path(si, k, origin, hist, preload, follow):
             why.append('R3 commit: %r, in the reference run: %r' % (res['commit_error'], ref['commit_error']))
         if res.get('db') != ref.get('db'):
             why.extend('R3 database after commit: ' + x for x in diff(ref.get('db') or {}, res.get('db') or {}))
-    if not STRICT_MODIFIED[0]:
-        why = [w for w in why if '/modified:' not in w]
-    LAST.clear(); LAST.update(si=si, k=k, res=res, why=why)
     return (not why), why, res
 
 
-def explain(fam, s, k, origin, hist, preload, follow=0):
-    setup()
+# ---------------------------------------------------------------------------------------------------- classification
+KEYS = ('undo-keyerror-on-unloaded-attribute', 'set-failed-nothing-undone', 'cascade-delete-undo-assertion',
+        'failed-create-stays-in-identity-map', 'undone-delete-of-new-object-loses-its-insert',
+        'refused-delete-leaves-collection-emptied', 'modified-flag-left-set')
+
+
+def explains(key, si, res, reason):
+    """Does defect class `key` account for this one difference on this path?  (Symptom patterns; the classes whose undo chain is
+    cut short - an exception inside an undo closure, set() that registers no undo at all - account for anything left behind.)"""
+    import re
+    fam, name, _ = SCENARIOS[si]
+    raised = res.get('raised') or ''
+    if reason.startswith('R4') or reason.startswith('reference run') or reason.startswith('session machinery'): return False
+    if key == 'modified-flag-left-set': return '/modified:' in reason
+    if '/modified:' in reason: return False
+    if key == 'undo-keyerror-on-unloaded-attribute': return raised.startswith('KeyError')
+    if key == 'set-failed-nothing-undone': return fam == 'set' or 'set()' in name
+    if key == 'cascade-delete-undo-assertion': return raised.startswith('AssertionError') and not (fam == 'set' or 'set()' in name)
+    if key == 'failed-create-stays-in-identity-map':       # everything that mentions the object the constructor was making (pk 9 / 99)
+        return (fam == 'create' or 'create' in name) and re.search(r"\('\w+', 9+\)|\.id/9+:", reason) is not None
+    if key == 'undone-delete-of-new-object-loses-its-insert':
+        return re.search(r'/save_pos: \d+ -> None|/to_save: |R3 database after commit', reason) is not None and 'injected' not in reason
+    if key == 'refused-delete-leaves-collection-emptied':      # only the collections a (cascading) delete emptied through a nested Set.__set__
+        for oid, ent, attr in res.get('nested_sets') or ():
+            if ('/objects/%s/vals/%s' % (oid, attr)) in reason: return True
+            if ('/modified_collections/%s.%s' % (ent, attr)) in reason and oid in reason: return True
+        return False
+    return False
+
+
+TOLERATE = set(x for x in os.environ.get('C13_TOLERATE', '').split(',') if x)      # set by checks/c13.py for re-check rounds
+ONLY_FLAG = [False]
+
+
+def classify_path(si, res, why):
+    """-> (holds, key): the path holds when every difference is accounted for by a tolerated class; otherwise `key` is the first
+    class of KEYS (not tolerated) that accounts for one of the remaining differences, or None (an unknown kind of failure)."""
+    rest = [w for w in why if not any(explains(k, si, res, w) for k in KEYS if k in TOLERATE)]
+    if not rest: return True, None
+    for k in KEYS:
+        if k not in TOLERATE and any(explains(k, si, res, w) for w in rest): return False, k
+    return False, None
+
+
+def judge(si, k, origin, hist, preload, follow, order=0):
+    """-> [holds, key, reasons, info]  (JSON-able; this is what the helper process returns)"""
+    base = None
+    if follow:
+        # a follow-up is only evaluated on a session that is clean without it; otherwise the path is the follow-up-free path
+        # (what a later operation does to an already damaged session belongs to the defect that damaged it)
+        bkey = (si, k, origin, hist, preload, order)
+        base = _S.setdefault('base', {}).get(bkey)
+        if base is None: base = _S['base'][bkey] = _run_path(si, k, origin, hist, preload, 0, order)
+        if [w for w in base[1] if '/modified:' not in w]: follow = 0
+    good, why, res = base if (base is not None and follow == 0) else _run_path(si, k, origin, hist, preload, follow, order)
+    if ONLY_FLAG[0]: why = [w for w in why if '/modified:' in w or w.startswith('R4')]
+    else: why = [w for w in why if '/modified:' not in w]
+    holds, key = classify_path(si, res, why)
+    info = dict(scenario='%s: %s' % SCENARIOS[si][:2], raised=res['raised'], injected=res['hit'], calls=res['calls'], steps=res['log'],
+                commit=res['commit_error'])
+    return [holds, key, why, info]
+
+
+def explain(fn, s, k, mode, order=0, follow=0):
+    """untraced, in-process re-run of one path of harness `fn` -> [holds, key, reasons, info]"""
+    fam, only_flag = HARNESSES[fn]
     lst = family(fam)
-    si = lst[s][0]
-    good, why, res = _run_path(si, k, origin, hist, preload, follow)
-    return good, why, dict(scenario=SCENARIOS[si][1], raised=res['raised'], hit=res['hit'], calls=res['calls'], log=res['log'])
+    si = lst[min(max(s, 0), len(lst) - 1)][0]
+    o, h, p = MODES[min(max(mode, 0), N_MODES - 1)]
+    ONLY_FLAG[0] = only_flag
+    return judge(si, min(max(k, 0), kmax(si)), o, h, p, min(max(follow, 0), N_FOLLOW - 1) if FOLLOW else 0, 1 if order else 0)
 
 
-def _pick(x, n):
-    """explicit branching: one solver decision per comparison turns the symbolic int into a concrete one in range(n)"""
-    for i in range(n - 1):
-        if x == i: return i
-    return n - 1
+# ---------------------------------------------------------------------------------------------------- helper process
+class Helper(object):
+    """Under CrossHair the concrete sessions run in a helper PROCESS.  CrossHair instruments the interpreter it runs in
+    (process-wide): with tracing suspended (NoTracing) the same session still costs 37 ms instead of 8 ms, in the harness
+    thread as well as in any other thread (both measured).  The helper is a plain interpreter that imports this module and the
+    same pony tree; the harness process makes the symbolic decisions, sends the concrete (scenario, k, history) and gets the
+    verdict back.  Replays and explain() run in-process."""
+    proc = None
+
+    @classmethod
+    def call(cls, what, *args):
+        import json, subprocess, sys
+        if cls.proc is None or cls.proc.poll() is not None:
+            root = os.path.dirname(os.path.dirname(os.path.abspath(__file__)))
+            code = 'import sys; sys.path.insert(0, %r); from checks import h_c13; h_c13.helper_main()' % root
+            cls.proc = subprocess.Popen([sys.executable, '-c', code], stdin=subprocess.PIPE, stdout=subprocess.PIPE, text=True, bufsize=1)
+        cls.proc.stdin.write(json.dumps([what] + list(args)) + '\n')
+        cls.proc.stdin.flush()
+        line = cls.proc.stdout.readline()
+        if not line: raise RuntimeError('C13 helper process died')
+        kind, val = json.loads(line)
+        if kind != 'ok': raise RuntimeError('C13 helper: ' + val)
+        return val
 
 
-def _harness(fam, s, k, origin, hist, preload, follow):
-    from crosshair import NoTracing
-    lst = family(fam)
-    sc = _pick(s, len(lst))
-    si = lst[sc][0]
-    kk = _pick(k, _S['kmax'][si] + 1)
-    o, h, p = _pick(origin, 3), _pick(hist, 3), _pick(preload, 2)
-    f = _pick(follow, N_FOLLOW) if FOLLOW else 0
-    with NoTracing():
-        if o == 1 and p == 1: return True            # nothing to load when everything was created in this session
-        good, why, res = _run_path(si, kk, o, h, p, f)
-    return good
+def helper_main():
+    import json, sys, traceback
+    out = os.fdopen(os.dup(sys.stdout.fileno()), 'w', buffering=1)
+    sys.stdout = sys.stderr
+    _setup()
+    for line in sys.stdin:
+        req = json.loads(line)
+        try:
+            if req[0] == 'kmax': val = kmax(req[1])
+            elif req[0] == 'judge':
+                ONLY_FLAG[0] = req[1]
+                val = judge(*req[2:])[:2]
+            else: raise ValueError(req[0])
+            out.write(json.dumps(['ok', val]) + '\n')
+        except BaseException as e:
+            out.write(json.dumps(['error', traceback.format_exc()[-1500:]]) + '\n')
 
 
-def _n(fam):
-    return len(family(fam))
-
-
+# ---------------------------------------------------------------------------------------------------- harnesses
+# (origin, hist, preload) combinations.  Quick tier: the first N_QUICK_MODES; thorough tier: all 18.
+MODES = [(0, 0, 0), (0, 0, 1), (0, 1, 0), (0, 1, 1), (0, 2, 0), (0, 2, 1), (1, 0, 0), (2, 0, 0), (2, 1, 0), (2, 2, 1),
+         (1, 1, 0), (1, 2, 0), (1, 0, 1), (1, 1, 1), (1, 2, 1), (2, 0, 1), (2, 1, 1), (2, 2, 0)]
+N_QUICK_MODES = 10
+N_MODES = len(MODES) if os.environ.get('C13_ALL_MODES') == '1' else N_QUICK_MODES
 KCAP = 64
 
 
-def create(s: int, k: int, origin: int, hist: int, preload: int, follow: int) -> bool:
+def _pick(x, n):
+    """explicit branching (bisection, one solver decision per comparison) turns the symbolic int into a concrete one in
+    range(n); crosshair's realize() never lets the search exhaust"""
+    lo, hi = 0, n - 1
+    while lo < hi:
+        mid = (lo + hi) // 2
+        if x <= mid: hi = mid
+        else: lo = mid + 1
+    return lo
+
+
+def _harness(fn, s, k, mode, order, follow):
+    from crosshair import NoTracing
+    from crosshair.tracers import is_tracing
+    traced = is_tracing()
+    fam, only_flag = HARNESSES[fn]
+    lst = family(fam)
+    si = lst[_pick(s, len(lst))][0]
+    with NoTracing():
+        bound = Helper.call('kmax', si) if traced else kmax(si)
+    kk = _pick(k, bound + 1)
+    o, h, p = MODES[_pick(mode, N_MODES)]
+    f = _pick(follow, N_FOLLOW) if FOLLOW and not only_flag else 0       # the flag harnesses need no follow-up
+    od = 1 if order else 0
+    with NoTracing():
+        if traced: holds, key = Helper.call('judge', only_flag, si, kk, o, h, p, f, od)
+        else:                          # replay of a counterexample (untraced, in-process)
+            ONLY_FLAG[0] = only_flag
+            holds, key = judge(si, kk, o, h, p, f, od)[:2]
+    return holds
+
+
+def _n(fn):
+    return len(family(HARNESSES[fn][0]))
+
+
+HARNESSES = {'create': ('create', False), 'assign': ('assign', False), 'set_call': ('set', False), 'one_to_one': ('o2o', False),
+             'coll_add': ('add', False), 'coll_remove': ('remove', False), 'coll_set': ('collset', False),
+             'delete': ('delete', False), 'mixed': ('mixed', False),
+             'modified_flag_assign': ('assign', True), 'modified_flag_delete': ('delete', True)}
+
+
+def create(s: int, k: int, mode: int, order: bool, follow: int) -> bool:
     """
-    pre: 0 <= s < _n('create') and 0 <= k <= KCAP and 0 <= origin <= 2 and 0 <= hist <= 2 and 0 <= preload <= 1 and 0 <= follow < N_FOLLOW
+    pre: 0 <= s < _n('create') and 0 <= k <= KCAP and 0 <= mode < N_MODES and 0 <= follow < N_FOLLOW
     post: _
     """
-    return ok(_harness('create', s, k, origin, hist, preload, follow))
+    return ok(_harness('create', s, k, mode, order, follow))
 
 
-def assign(s: int, k: int, origin: int, hist: int, preload: int, follow: int) -> bool:
+def assign(s: int, k: int, mode: int, order: bool, follow: int) -> bool:
     """
-    pre: 0 <= s < _n('assign') and 0 <= k <= KCAP and 0 <= origin <= 2 and 0 <= hist <= 2 and 0 <= preload <= 1 and 0 <= follow < N_FOLLOW
+    pre: 0 <= s < _n('assign') and 0 <= k <= KCAP and 0 <= mode < N_MODES and 0 <= follow < N_FOLLOW
     post: _
     """
-    return ok(_harness('assign', s, k, origin, hist, preload, follow))
+    return ok(_harness('assign', s, k, mode, order, follow))
 
 
-def set_call(s: int, k: int, origin: int, hist: int, preload: int, follow: int) -> bool:
+def set_call(s: int, k: int, mode: int, order: bool, follow: int) -> bool:
     """
-    pre: 0 <= s < _n('set') and 0 <= k <= KCAP and 0 <= origin <= 2 and 0 <= hist <= 2 and 0 <= preload <= 1 and 0 <= follow < N_FOLLOW
+    pre: 0 <= s < _n('set_call') and 0 <= k <= KCAP and 0 <= mode < N_MODES and 0 <= follow < N_FOLLOW
     post: _
     """
-    return ok(_harness('set', s, k, origin, hist, preload, follow))
+    return ok(_harness('set_call', s, k, mode, order, follow))
 
 
-def one_to_one(s: int, k: int, origin: int, hist: int, preload: int, follow: int) -> bool:
+def one_to_one(s: int, k: int, mode: int, order: bool, follow: int) -> bool:
     """
-    pre: 0 <= s < _n('o2o') and 0 <= k <= KCAP and 0 <= origin <= 2 and 0 <= hist <= 2 and 0 <= preload <= 1 and 0 <= follow < N_FOLLOW
+    pre: 0 <= s < _n('one_to_one') and 0 <= k <= KCAP and 0 <= mode < N_MODES and 0 <= follow < N_FOLLOW
     post: _
     """
-    return ok(_harness('o2o', s, k, origin, hist, preload, follow))
+    return ok(_harness('one_to_one', s, k, mode, order, follow))
 
 
-def coll_add(s: int, k: int, origin: int, hist: int, preload: int, follow: int) -> bool:
+def coll_add(s: int, k: int, mode: int, order: bool, follow: int) -> bool:
     """
-    pre: 0 <= s < _n('add') and 0 <= k <= KCAP and 0 <= origin <= 2 and 0 <= hist <= 2 and 0 <= preload <= 1 and 0 <= follow < N_FOLLOW
+    pre: 0 <= s < _n('coll_add') and 0 <= k <= KCAP and 0 <= mode < N_MODES and 0 <= follow < N_FOLLOW
     post: _
     """
-    return ok(_harness('add', s, k, origin, hist, preload, follow))
+    return ok(_harness('coll_add', s, k, mode, order, follow))
 
 
-def coll_remove(s: int, k: int, origin: int, hist: int, preload: int, follow: int) -> bool:
+def coll_remove(s: int, k: int, mode: int, order: bool, follow: int) -> bool:
     """
-    pre: 0 <= s < _n('remove') and 0 <= k <= KCAP and 0 <= origin <= 2 and 0 <= hist <= 2 and 0 <= preload <= 1 and 0 <= follow < N_FOLLOW
+    pre: 0 <= s < _n('coll_remove') and 0 <= k <= KCAP and 0 <= mode < N_MODES and 0 <= follow < N_FOLLOW
     post: _
     """
-    return ok(_harness('remove', s, k, origin, hist, preload, follow))
+    return ok(_harness('coll_remove', s, k, mode, order, follow))
 
 
-def coll_set(s: int, k: int, origin: int, hist: int, preload: int, follow: int) -> bool:
+def coll_set(s: int, k: int, mode: int, order: bool, follow: int) -> bool:
     """
-    pre: 0 <= s < _n('collset') and 0 <= k <= KCAP and 0 <= origin <= 2 and 0 <= hist <= 2 and 0 <= preload <= 1 and 0 <= follow < N_FOLLOW
+    pre: 0 <= s < _n('coll_set') and 0 <= k <= KCAP and 0 <= mode < N_MODES and 0 <= follow < N_FOLLOW
     post: _
     """
-    return ok(_harness('collset', s, k, origin, hist, preload, follow))
+    return ok(_harness('coll_set', s, k, mode, order, follow))
 
 
-def delete(s: int, k: int, origin: int, hist: int, preload: int, follow: int) -> bool:
+def delete(s: int, k: int, mode: int, order: bool, follow: int) -> bool:
     """
-    pre: 0 <= s < _n('delete') and 0 <= k <= KCAP and 0 <= origin <= 2 and 0 <= hist <= 2 and 0 <= preload <= 1 and 0 <= follow < N_FOLLOW
+    pre: 0 <= s < _n('delete') and 0 <= k <= KCAP and 0 <= mode < N_MODES and 0 <= follow < N_FOLLOW
     post: _
     """
-    return ok(_harness('delete', s, k, origin, hist, preload, follow))
+    return ok(_harness('delete', s, k, mode, order, follow))
 
 
-def mixed(s: int, k: int, origin: int, hist: int, preload: int, follow: int) -> bool:
+def mixed(s: int, k: int, mode: int, order: bool, follow: int) -> bool:
     """
-    pre: 0 <= s < _n('mixed') and 0 <= k <= KCAP and 0 <= origin <= 2 and 0 <= hist <= 2 and 0 <= preload <= 1 and 0 <= follow < N_FOLLOW
+    pre: 0 <= s < _n('mixed') and 0 <= k <= KCAP and 0 <= mode < N_MODES and 0 <= follow < N_FOLLOW
     post: _
     """
-    return ok(_harness('mixed', s, k, origin, hist, preload, follow))
+    return ok(_harness('mixed', s, k, mode, order, follow))
 
 
-HARNESSES = {'create': 'create', 'assign': 'assign', 'set_call': 'set', 'one_to_one': 'o2o', 'coll_add': 'add',
-             'coll_remove': 'remove', 'coll_set': 'collset', 'delete': 'delete', 'mixed': 'mixed'}
+def modified_flag_assign(s: int, k: int, mode: int, order: bool, follow: int) -> bool:
+    """
+    pre: 0 <= s < _n('modified_flag_assign') and 0 <= k <= KCAP and 0 <= mode < N_MODES and 0 <= follow < N_FOLLOW
+    post: _
+    """
+    return ok(_harness('modified_flag_assign', s, k, mode, order, follow))
+
+
+def modified_flag_delete(s: int, k: int, mode: int, order: bool, follow: int) -> bool:
+    """
+    pre: 0 <= s < _n('modified_flag_delete') and 0 <= k <= KCAP and 0 <= mode < N_MODES and 0 <= follow < N_FOLLOW
+    post: _
+    """
+    return ok(_harness('modified_flag_delete', s, k, mode, order, follow))
